@@ -118,7 +118,7 @@ func matchUsesRestricted(v ssa.Value, allowed map[*types.Var]bool, seen map[ssa.
 				continue
 			}
 			// embedded chain: Group -> Capture -> RuneIndex
-			if f != nil && (f.Name() == "Group" || f.Name() == "Capture") {
+			if f != nil && (core.BaseName(f) == "Group" || core.BaseName(f) == "Capture") {
 				if ok, why := embeddedOnly(x, allowed); !ok {
 					return false, why
 				}
@@ -158,7 +158,7 @@ func embeddedOnly(fa *ssa.FieldAddr, allowed map[*types.Var]bool) (bool, string)
 				}
 				continue
 			}
-			if f != nil && (f.Name() == "Group" || f.Name() == "Capture") {
+			if f != nil && (core.BaseName(f) == "Group" || core.BaseName(f) == "Capture") {
 				if ok, why := embeddedOnly(x, allowed); !ok {
 					return false, why
 				}
@@ -209,7 +209,7 @@ func RQuick(c *core.Ctx) {
 				runnerAddr := st.Addr.(*ssa.FieldAddr).X
 				for _, r := range core.Referrers(runnerAddr) {
 					if ci, ok := r.(ssa.CallInstruction); ok {
-						if cal := ci.Common().StaticCallee(); cal != nil && core.InModule(cal) && cal != scan && cal.Name() != "putRunner" && !strings.HasPrefix(cal.Name(), "decodeString") {
+						if cal := ci.Common().StaticCallee(); cal != nil && core.InModule(cal) && cal != scan && core.BaseName(cal) != "putRunner" && !strings.HasPrefix(core.BaseName(cal), "decodeString") {
 							quickFns[cal] = true
 						}
 					}
@@ -418,7 +418,7 @@ func ROrigin(c *core.Ctx) {
 							}
 							// pass-through helpers, call-site sensitive: the rune start (result 1) is a
 							// function of the byte start argument
-							if (cal.Name() == "decodeStringWithStart" || cal.Name() == "getRunesAndStart") && x.Index == 1 {
+							if (core.BaseName(cal) == "decodeStringWithStart" || core.BaseName(cal) == "getRunesAndStart") && x.Index == 1 {
 								for i, prm := range cal.Params {
 									if prm.Name() == "startAt" && tainted[call.Call.Args[i]] {
 										mark(x)
@@ -440,7 +440,7 @@ func ROrigin(c *core.Ctx) {
 						}
 					case *ssa.Call:
 						cal := x.Call.StaticCallee()
-						if cal == nil || !core.InModule(cal) || cal == scan || cal == run || cal.Name() == "decodeStringWithStart" || cal.Name() == "getRunesAndStart" {
+						if cal == nil || !core.InModule(cal) || cal == scan || cal == run || core.BaseName(cal) == "decodeStringWithStart" || core.BaseName(cal) == "getRunesAndStart" {
 							continue
 						}
 						for i, a := range x.Call.Args {
